@@ -7,9 +7,9 @@ import SimbodyModel.C41
 * `I fstep y0 y1 x0 x1 x`                    → `O fstep v d1 d2 d3`            (`Function_<Real>::Step`)
 * `I fconst v`                               → `O fconst v 0`
 * `I flin n c[n+1] x[n] j`                   → `O flin value d/dxj d²(=0)`
-* `I fpoly nc c[nc] x maxOrder`              → `O fpoly value d1 … d_maxOrder`
-* `I fsin a w p t maxOrder`                  → `O fsin d0 … d_maxOrder`
-* `I splder m n t x[n] c[n]`                 → `O splder d0 … d_{2m}`           (`GCVSPLUtil::splder`)
+* `I fpoly nc c[nc] x order`                 → `O fpoly d_order`   (order 0 = value)
+* `I fsin a w p t order`                     → `O fsin d_order`
+* `I splder m n ider t x[n] c[n]`            → `O splder value`                 (`GCVSPLUtil::splder`)
 -/
 open Proto C41
 
@@ -36,19 +36,18 @@ def handle (fn : String) (a : List Float) : Option (List Float) :=
     let nc := nat ncf
     let cs := rest.take nc
     match rest.drop nc with
-    | [x, mo] =>
-      some (polyValue cs x :: (List.range (nat mo)).map (fun k => polyDeriv Float.ofNat cs (k + 1) x))
+    | [x, k] => some [if nat k = 0 then polyValue cs x else polyDeriv Float.ofNat cs (nat k) x]
     | _ => none
-  | "fsin", [a, w, p, t, mo] =>
+  | "fsin", [a, w, p, t, k] =>
     let ph := w * t + p
-    some ((List.range (nat mo + 1)).map (fun k => sinusoidDeriv k a w (Float.sin ph) (Float.cos ph)))
-  | "splder", mf :: nf :: t :: rest =>
+    some [sinusoidDeriv (nat k) a w (Float.sin ph) (Float.cos ph)]
+  | "splder", mf :: nf :: iderf :: t :: rest =>
     let m := nat mf
     let n := nat nf
     let x := (rest.take n).toArray
     let c := ((rest.drop n).take n).toArray
     if rest.length != 2 * n then none else
-    some ((List.range (2 * m + 1)).map (fun ider => splder Float.ofNat ider m n t x c))
+    some [splder Float.ofNat (nat iderf) m n t x c]
   | _, _ => none
 
 def main : IO Unit := runPure handle
